@@ -33,9 +33,9 @@ RULE = ("streams: E1 exhaustive -- every operation sequence of length <= 3 (quic
         "requests), plus sampled longer ones; E3/E5 -- sampled sequences of length 3..12 over all six plug-in types and "
         "one to three managers with names and plug-ins decoupled and objects re-used; E4 -- for every type every built-in "
         "method name (and unknown ones) in three casings, bare, qualified and through external/, incl. the external "
-        "optimizer's constructor; E7 -- a rejected registration in the middle of a sequence followed by the probe block; "
+        "optimizer's constructor; E9 -- a falsy plug-in object (len() == 0) requested bare and by name (F19a); E7 -- a rejected registration in the middle of a sequence followed by the probe block; "
         "E8 -- the same request (or listing) before and after each of 8 registrations, on the same and on a second "
-        "manager, for every type; corpus -- the inputs of 5 seeded and 8 own regressions.  The cases are shuffled (seeded) "
+        "manager, for every type; corpus -- the inputs of 5 seeded and 8 own regressions and of finding F19a.  The cases are shuffled (seeded) "
         "over the shards.  Non-trivial = the sequence contains a successful add_plugin and a later lookup, or probes the "
         "built-in tables; distinct = distinct case.")
 ASSUMPTIONS = [
@@ -54,7 +54,7 @@ STUBS = {
     "N": (["b"] + SHADOW[1:], False, False),
     "C": (["B", "a", "x/Y"], True, True),
     "D": (["a"] + SHADOW, True, False),
-    "Z": (["a"], True, False),           # like A, but the object is falsy (len() == 0); only used by FALSY_STREAM
+    "Z": (["a"], True, False),           # like A, but the object is falsy (len() == 0)
 }
 BUILTIN_K = {
     "ExternalOptimizerPlugin": 0, "SciPyOptimizerPlugin": 1, "SciPySamplerPlugin": 2,
@@ -132,7 +132,7 @@ def _rand_add(rng, t, n_prev_adds):
     name = rng.choice(ADD_NAMES)
     r = rng.random()
     if r < 0.62:
-        plug = ["stub", rng.choice("ABNCD")]
+        plug = ["stub", rng.choice("ABNCDABNCDZ")]
     elif r < 0.76:
         plug = ["builtin", rng.choice([TYPE_K[t], TYPE_K[t], 0 if t == 0 else TYPE_K[t]])]
     elif r < 0.80:
@@ -256,9 +256,20 @@ def _gen_stale_types():
                         yield _mk("E8-stale", 2, ops)
 
 
-# A plug-in object that is falsy (defines __len__/__bool__) is skipped by `if plugin and ...` in get_plugin: it can be
-# discovered by a bare name but never addressed as 'name/method' (reported as a finding; /repo HEAD alarms when enabled).
-FALSY_STREAM = False
+# A plug-in object that is falsy (defines __len__/__bool__) was skipped by `if plugin and ...` in get_plugin: it could be
+# discovered by a bare name but never addressed as 'name/method' (finding F19a, repaired in /repo by 1ccc340).
+FALSY_STREAM = True
+
+
+def _gen_falsy():
+    for t in (0, 3):
+        for prio in (False, True):
+            for name in ("z", "Z"):
+                ops = [[0, t, ["add", name, ["stub", "Z"], prio]], [0, t, ["list"]]]
+                for m in ("z/a", "Z/A", "a", "z/zzz", "z/"):
+                    ops += [[0, t, ["get", m]], [0, t, ["sup", m]]]
+                ops += [[0, t, ["add", "Z", ["stub", "A"], True]], [1, t, ["sup", "z/a"]]]
+                yield _mk("E9-falsy", 2, ops)
 
 
 def gen_cases(tier, rng):
@@ -298,8 +309,21 @@ def _gen_streams(tier, rng):
     yield from _gen_stale(quick, rng)
     yield from _gen_stale_types()
     if FALSY_STREAM:
-        for m in ("z/a", "a", "Z/A"):
-            yield _mk("E9-falsy", 1, [[0, 0, ["add", "z", ["stub", "Z"], False]], [0, 0, ["get", m]], [0, 0, ["sup", m]]])
+        yield from _gen_falsy()
+
+
+def _norm(case):
+    """cases written before the finisher pass ({"type": t, "ops": [[manager, op]]}, name-coupled stubs) in today's format"""
+    if "type" not in case:
+        return case
+    t = TYPES.index(case["type"])
+    ops = []
+    for i, op in case["ops"]:
+        if op[0] == "add":
+            ops.append([i, t, ["add", op[1], ["stub", op[1].upper()], bool(op[2])]])
+        else:
+            ops.append([i, t, list(op)])
+    return {**{k: v for k, v in case.items() if k != "type"}, "stream": case.get("stream", "legacy"), "ops": ops}
 
 
 # ---- driver ---------------------------------------------------------------------------------------------------
@@ -351,10 +375,13 @@ def _fwd(method):
         ExternalOptimizerPlugin().create(cfg, lambda *a, **k: None)
     except ConfigError:
         return ["err"]
+    except Exception as e:  # noqa: BLE001 - e.g. a stub leaked into the fresh manager: an answer the model never gives
+        return ["other", type(e).__name__]
     return ["ok"]
 
 
 def _run(case):
+    case = _norm(case)
     from ropt.exceptions import ConfigError
     from ropt.plugins import PluginManager
     if len(case["ops"]) > MAX_OPS:
@@ -429,40 +456,81 @@ def _run(case):
 # step then builds a composite case `history + ops`, which is always run in a fresh interpreter).
 _HISTORY: list = []
 _RERUN_DONE: set = set()
-_STATE = {"contaminated": False, "budget": 30}
+_STATE = {"contaminated": False, "budget": 400}
 _VERIFY_ALL = False       # set by shrink(): while shrinking (parent process) EVERY failing candidate is confirmed in a fresh interpreter
 _HIST: dict = {}
 HISTORY_KEEP = 40
 PROCESS_CLAUSE = "isolation: process-wide state (the answers depend on what other managers did earlier in this process)"
 
 _CHILD = """
-import json, sys
+import json, os, sys
 sys.path.insert(0, %r)
 from common import use_repo_sources
 use_repo_sources()
 import importlib
 m = importlib.import_module("props.C19")
-case = json.load(sys.stdin)
-for h in case.get("history") or []:
-    try:
-        m._run(h)
-    except BaseException:
-        pass
-print("\\n@@OBS@@" + json.dumps(m._run(case)))
+import ropt.plugins, ropt.plugins.optimizer.external, ropt.config.enopt      # imported, never run: this process stays fresh
+import importlib.metadata as md
+for ep in md.entry_points():           # warm the stdlib's metadata caches and import (not instantiate) the plug-in classes
+    if ep.group.startswith("ropt.plugins."):
+        ep.load()
+
+def serve(case):
+    for h in case.get("history") or []:
+        try:
+            m._run(h)
+        except BaseException:
+            pass
+    return m._run(case)
+
+while True:
+    line = sys.stdin.readline()
+    if not line:
+        break
+    case = json.loads(line)
+    r, w = os.pipe()
+    pid = os.fork()
+    if pid == 0:                       # every request is answered by a fork of the fresh process
+        os.close(r)
+        try:
+            out = json.dumps(serve(case))
+        except BaseException as e:
+            out = json.dumps({"pristine_error": type(e).__name__, "message": str(e)[:300]})
+        with os.fdopen(w, "w") as f:
+            f.write(out)
+        os._exit(0)
+    os.close(w)
+    with os.fdopen(r) as f:
+        data = f.read()
+    os.waitpid(pid, 0)
+    sys.stdout.write(data.replace("\\n", " ") + "\\n")
+    sys.stdout.flush()
 """
+_ZYGOTE: dict = {}
 
 
 def _pristine(case):
+    """the observation of `case` (after its `history`, if any) in a process in which no ropt code has run before"""
     import json
     import os
     import subprocess
     import sys
-    here = os.path.dirname(os.path.dirname(os.path.abspath(__file__)))
-    p = subprocess.run([sys.executable, "-c", _CHILD % here], input=json.dumps(case), capture_output=True, text=True,
-                       timeout=300)
-    if "@@OBS@@" not in p.stdout:
-        raise RuntimeError("fresh-interpreter run failed: " + (p.stderr or p.stdout)[-400:])
-    return json.loads(p.stdout.split("@@OBS@@", 1)[1])
+    z = _ZYGOTE.get(os.getpid())
+    if z is None or z.poll() is not None:
+        here = os.path.dirname(os.path.dirname(os.path.abspath(__file__)))
+        z = subprocess.Popen([sys.executable, "-c", _CHILD % here], stdin=subprocess.PIPE, stdout=subprocess.PIPE,
+                             text=True, bufsize=1)
+        _ZYGOTE.clear()
+        _ZYGOTE[os.getpid()] = z
+    z.stdin.write(json.dumps(case) + "\n")
+    z.stdin.flush()
+    line = z.stdout.readline()
+    if not line:
+        raise RuntimeError("fresh-interpreter run failed (no answer)")
+    obs = json.loads(line)
+    if "pristine_error" in obs:
+        raise RuntimeError(f"fresh-interpreter run failed: {obs['pristine_error']}: {obs.get('message')}")
+    return obs
 
 
 def _key(case):
@@ -471,6 +539,7 @@ def _key(case):
 
 
 def run_impl(case):
+    case = _norm(case)
     if case.get("history") is not None:
         return _pristine(case)
     obs = _run(case)
@@ -511,7 +580,7 @@ def _all_strings():
         out |= set(ms)
     for op in ADD_COUPLED + E1_LOOKUPS + E6_OPS + E2_ADDS:
         out.add(op[1])
-    for c in itertools.chain(_gen_tables(), _gen_stale_types()):
+    for c in itertools.chain(_gen_tables(), _gen_stale_types(), _gen_falsy()):
         out |= {op[1] for _, _, op in c["ops"] if len(op) > 1}
     names = set(ADD_NAMES) | {n for reg in STD_INIT for n, _ in reg}
     for n in names:
@@ -599,6 +668,7 @@ def _std_listing():
 
 
 def coq_case(case, obs):
+    case = _norm(case)
     if obs["init"] == STD_INIT:
         init = "std_init"
     else:
@@ -660,6 +730,7 @@ class _Ref:
 
 def oracle(case, obs):
     """The property's own clauses evaluated on the implementation's answers (no model)."""
+    case = _norm(case)
     v = _oracle(case, obs)
     if v is not None and obs.get("history_dependent"):
         _HIST[_key(case)] = obs.get("history") or []
@@ -752,6 +823,7 @@ def _oracle(case, obs):
 
 # ---- evidence --------------------------------------------------------------------------------------------------
 def nontrivial(case, obs):
+    case = _norm(case)
     if case.get("stream", "").startswith("E4"):
         return True
     added = False
@@ -764,6 +836,7 @@ def nontrivial(case, obs):
 
 
 def features(case, obs):
+    case = _norm(case)
     ops = case["ops"]
     kinds = [a[0] for a in obs["answers"]]
     n = len(ops)
@@ -819,6 +892,7 @@ def _drop(case, k):
 def shrink(case):
     global _VERIFY_ALL
     _VERIFY_ALL = True
+    case = _norm(case)
     hist = case.get("history")
     if hist is None and _key(case) in _HIST:
         # fails only after what this worker process ran before: make that history part of the input
@@ -849,6 +923,7 @@ def search(rng, case):
     if case is None:
         yield from itertools.islice(gen_cases("quick", rng), 0, 1500)
         return
+    case = _norm(case)
     yield from shrink(case)
     ops = case["ops"]
     ts = sorted({t for _, t, _ in ops}) or [0]
@@ -876,12 +951,14 @@ MANIFEST = {
                    "managers and plug-in types over whole interleaved sequences (each component answers as if run alone); the "
                    "model is tied to the code on every run by an in-Coq correspondence over all operation sequences up to length "
                    "3 (quick) / 4 (thorough) and structured/sampled longer ones on real PluginManager objects of every plug-in "
-                   "type, with the built-in method tables regenerated from source."),
+                   "type (stub plug-ins incl. a case-sensitive and a falsy one, real built-in instances, re-used objects), with the built-in method tables regenerated from source."),
     "level_note": ("Trusted: Coq kernel + VM; the translator copying the built-in method tables; the Python driver that runs the real "
                    "PluginManager and prints answers as Gallina literals; stub plug-ins are table-driven; entry-point order is observed; "
                    "str.lower is modelled on printable ASCII only (non-ASCII names are outside the model); KeyError for an unknown "
                    "plug-in type is modelled (ABad) but not driven.  The fuel of the external plug-in's recursion is proved irrelevant "
                    "(C19_fuel_irrelevant) under the checked hypothesis that external plug-ins are not discoverable.  "
+                   "Finding F19a (a falsy plug-in object could not be requested by its name) is repaired in /repo (1ccc340) and is re-checked on every run "
+                   "(stream E9, corpus); reverting the repair is detected.  "
                    "All theorems print 'Closed under the global context'."),
     "technique": "Coq proof (induction over operation sequences on an executable Gallina model, generic indexed-family lemmas for isolation) + in-Coq differential correspondence with the real PluginManager + independent Python reading of the property text",
     "design_ref": "DESIGN.md section 4, C19",
